@@ -1822,6 +1822,20 @@ func (u *Unit) runAnchorsNamed(st *State, anchor string, pos token.Pos, extra ma
 				panic(engineError(fmt.Sprintf("%s:%d: bad ghost assignment target", shortFile(c.File), c.Line)))
 			}
 			sc := &specCtx{u: u, st: st, cur: st, old: u.old, env: env, bound: map[string]Value{}, c: c, fr: u.top(), pos: pos}
+			if ix, isIx := ast.Unparen(sg.E).(*ast.IndexExpr); isIx {
+				// $m[k] = v on a ghost map: the whole map is replaced by its update
+				if bv := sc.goExpr(ix.X, sg.Subs); bv.T != nil {
+					if _, isGM := bv.T.(*GhostMap); isGM {
+						if blv, ok := sc.lv(ix.X, sg.Subs); ok {
+							iv := sc.goExpr(ix.Index, sg.Subs)
+							nv := bv
+							nv.L = []Term{Store(bv.term(), iv.term(), rv.term())}
+							u.store(st, blv, nv)
+							continue
+						}
+					}
+				}
+			}
 			lv, ok := sc.lv(sg.E, sg.Subs)
 			if !ok {
 				panic(engineError(fmt.Sprintf("%s:%d: ghost assignment target is not a location", shortFile(c.File), c.Line)))
